@@ -388,6 +388,10 @@ class CSSSerializer:
 
     def do_CSSStyleSheet(self, stylesheet):
         """serializes a complete CSSStyleSheet"""
+        # indentSpecificities: every sheet starts without nesting, whatever
+        # has been serialized before
+        self._selectors = []
+        self._selectorlevel = 0
         useduris = stylesheet._getUsedURIs()
         out = []
         for rule in stylesheet.cssRules:
